@@ -1,10 +1,113 @@
 /- line-protocol handlers for Model/HandLayout.lean.  All commands are prefixed `hl.`. -/
 import FontVerif.Model.HandLayout
+import FontVerif.Drv.C01Iter
 namespace FontVerif.Drv.C01HandLayout
-open FontVerif FontVerif.ReadIter FontVerif.HandRead FontVerif.HandLayout
+open FontVerif FontVerif.ReadIter FontVerif.HandRead FontVerif.HandLayout FontVerif.Layout
+
+def errStr : LErr → String
+  | .oob => "e:O"
+  | .invalidFormat n => s!"e:F{n}"
+
+def resNat : Res Nat → String
+  | .val v => toString v
+  | .trap => "trap"
+
+def resOpt : Res (Option Nat) → String
+  | .val (some v) => toString v
+  | .val none => "n"
+  | .trap => "trap"
+
+def resBool : Res Bool → String
+  | .val true => "1"
+  | .val false => "0"
+  | .trap => "trap"
+
+def joinStrs (xs : List String) : String := if xs.isEmpty then "-" else " ".intercalate xs
+
+/-- split a list at the first "|" -/
+def splitBar (xs : List String) : List String × List String :=
+  (xs.takeWhile (· ≠ "|"), (xs.dropWhile (· ≠ "|")).drop 1)
+
+def natsOrEmpty (xs : List String) : Option (List Nat) :=
+  if xs = ["-"] ∨ xs = [] then some [] else parseNats? xs
+
+/-- `<count> <fnv>` of a list; for more than 2100 items the hash covers the first 2000 and the last 100 -/
+def digest (xs : List Nat) : String :=
+  let n := xs.length
+  let ys := if n > 2100 then xs.take 2000 ++ xs.drop (n - 100) else xs
+  s!"{n} {Drv.C01Iter.fnv ys}"
+
+def u8OfInt (v : Int) : Nat := (v % 256).toNat
+
+def devStr (v : Dev) : String :=
+  match devIter v with
+  | .trap => "trap"
+  | .val xs => digest (xs.map u8OfInt) ++ " " ++ joinStrs ((xs.take 12).map toString)
 
 def handle (cmd : String) (args : List String) : Option String :=
   match cmd, args with
+  | "hl.cov", hex :: gids =>
+    match parseHex? hex, natsOrEmpty gids with
+    | some d, some gs =>
+      match covRead d with
+      | .error e => some (errStr e)
+      | .ok c =>
+        let f := match c with | .fmt1 _ => "f1" | .fmt2 _ => "f2"
+        some s!"{f} {resNat (covPop c)} {digest (covIter c)} | {joinStrs (gs.map (fun g => resOpt (covGet c g)))}"
+    | _, _ => none
+  | "hl.covx", hex :: rest =>
+    -- `rest` = the glyph sets, separated by "|"
+    match parseHex? hex with
+    | none => none
+    | some d =>
+      let rec sets (xs : List String) (fuel : Nat) : Option (List (List Nat)) :=
+        match fuel with
+        | 0 => none
+        | fuel + 1 =>
+          if xs.isEmpty then some []
+          else
+            let (a, b) := splitBar xs
+            match natsOrEmpty a, sets b fuel with
+            | some s, some r => some (s :: r)
+            | _, _ => none
+      match sets rest (rest.length + 1) with
+      | none => none
+      | some ss =>
+        match covRead d with
+        | .error e => some (errStr e)
+        | .ok c =>
+          let whole := "".intercalate (ss.map (fun s => resBool (covIntersects c s)))
+          let recs := match c with
+            | .fmt1 _ => []
+            | .fmt2 rs => (rs.take 4).map (fun r =>
+                let ints := "".intercalate (ss.map (fun s => if rangeIntersects r s then "1" else "0"))
+                s!"{resNat (rangePop r.start r.end_)}:{digest (rangeIter r)}:{ints}")
+          some s!"{whole} {joinStrs recs}"
+  | "hl.cls", hex :: gids =>
+    match parseHex? hex, natsOrEmpty gids with
+    | some d, some gs =>
+      match clsRead d with
+      | .error e => some (errStr e)
+      | .ok c =>
+        let f := match c with | .fmt1 _ _ => "f1" | .fmt2 _ => "f2"
+        let it := (clsIter c).flatMap (fun p => [p.1, p.2])
+        let recs := match c with
+          | .fmt1 _ _ => []
+          | .fmt2 rs => (rs.take 4).map (fun r => resNat (rangePop r.start r.end_))
+        some s!"{f} {resNat (clsPop c)} {digest it} {joinStrs recs} | {joinStrs (gs.map (fun g => resNat (clsGet c g)))}"
+    | _, _ => none
+  | "hl.dev", [hex] =>
+    match parseHex? hex with
+    | none => none
+    | some d =>
+      let a := match devRead d with
+        | .error e => errStr e
+        | .ok v => s!"{v.start} {v.end_} {v.words.length} {devStr v}"
+      let b := match devOrVarRead d with
+        | .error e => errStr e
+        | .ok (.device v) => s!"D {devStr v}"
+        | .ok (.varIdx o i) => s!"V {o} {i}"
+      some s!"{a} | {b}"
   | _, _ => none
 
 end FontVerif.Drv.C01HandLayout
